@@ -61,7 +61,9 @@ Qed.
 Print Assumptions C02_atomic_onepc.
 
 (* ---- async commit that has not fallen back: [asyncm s T] = mutations logged, every prewrite request asked
-   for async commit (and none for 1PC), no reply / delivery reported min-commit 0, no forced fallback.
+   for async commit, no reply / delivery reported min-commit 0, no forced fallback, and no prewrite request was
+   applied as a one-phase commit ([no1pc]; 1PC may have been requested too and abandoned after a re-split:
+   example async1pc_resplit_accepted; while 1PC is still in force and succeeds, C02_atomic_onepc applies).
    [Sealed s T] = every locked mutation has been prewritten; [cstar s T] = max of the min-commit ts of its
    locks (ghost map [lamk], fixed when a key is first locked); [NSa s T] = some locked mutation can never be
    locked. The theorem holds for EVERY accepted trace, hence also after any accepted extension in which T is
@@ -271,7 +273,9 @@ Example async_happy_accepted : exists s, run async_happy = Some s /\ asyncm s S0
   cstar s S0 = S0 + 4 /\ kget s S0 11 = Committed (S0 + 4) /\ kget s S0 10 = Locked (S0 + 3).
 Proof.
   destruct (run async_happy) as [s |] eqn:E; [| vm_compute in E; discriminate]. exists s. split; auto.
-  vm_compute in E. inversion E. unfold asyncm, hasm. repeat split; vm_compute; congruence.
+  vm_compute in E. inversion E. split; [| repeat split; vm_compute; congruence].
+  unfold asyncm, hasm. split; [vm_compute; congruence |]. split; [vm_compute; congruence |]. split; [| split; vm_compute; congruence].
+  intros r ks m o Hi. vm_compute in Hi. repeat (destruct Hi as [Hi | Hi]; [inversion Hi; reflexivity |]). destruct Hi.
 Qed.
 Definition onepc_happy : list event :=
   [ ETso S0; EBegin 1 S0; ECommitCall S0 false; ETso (S0 + 1); EMutations S0 10 [(10, OpPut); (11, OpPut)];
@@ -294,3 +298,32 @@ Example async_err_primary_never_sent_accepted : reject_of
     EPwSend 1 S0 10 [11] true false (S0 + 2) 0 [];
     EPwDeliver 1 S0 [11] (PwOk (S0 + 4) 0); ETold S0 TErr ] = None.
 Proof. vm_compute. reflexivity. Qed.
+(* async commit + 1PC requested, the single request hit a region error, re-split: 1PC abandoned, async commit kept *)
+Definition async1pc_resplit : list event :=
+  [ ETso S0; EBegin 1 S0; ECommitCall S0 false; ETso (S0 + 1); EMutations S0 10 [(10, OpPut); (11, OpPut)];
+    EPwSend 1 S0 10 [10; 11] true true (S0 + 2) 0 [11]; EPwDeliver 1 S0 [10; 11] PwRegion; EPwReply 1 S0 [10; 11] PwRegion;
+    EPwSend 1 S0 10 [11] true false (S0 + 2) 0 []; EPwSend 1 S0 10 [10] true false (S0 + 2) 0 [11];
+    EPwDeliver 1 S0 [11] (PwOk (S0 + 3) 0); EPwReply 1 S0 [11] (PwOk (S0 + 3) 0);
+    EPwDeliver 1 S0 [10] (PwOk (S0 + 4) 0); EPwReply 1 S0 [10] (PwOk (S0 + 4) 0); ETold S0 TOk;
+    ECmSend 1 S0 (S0 + 4) [11]; ECmDeliver 1 S0 (S0 + 4) [11] CmOk ].
+Example async1pc_resplit_accepted : exists s, run async1pc_resplit = Some s /\ asyncm s S0 /\ F s S0 FTried1 <> 0 /\
+  F s S0 FTold = 1 /\ cstar s S0 = S0 + 4 /\ kget s S0 11 = Committed (S0 + 4).
+Proof.
+  destruct (run async1pc_resplit) as [s |] eqn:E; [| vm_compute in E; discriminate]. exists s. split; auto.
+  vm_compute in E. inversion E. split; [| repeat split; vm_compute; congruence].
+  unfold asyncm, hasm. split; [vm_compute; congruence |]. split; [vm_compute; congruence |]. split; [| split; vm_compute; congruence].
+  intros r ks m o Hi. vm_compute in Hi. repeat (destruct Hi as [Hi | Hi]; [inversion Hi; reflexivity |]). destruct Hi.
+Qed.
+(* the owner saw min-commit 0 (store declined async commit): it is a 2PC committer, a definite error needs no closed key ... *)
+Example fallback_err_primary_unanswered_accepted : reject_of
+  [ ETso S0; EBegin 1 S0; ECommitCall S0 false; EMutations S0 10 [(10, OpPut); (11, OpPut)];
+    EPwSend 1 S0 10 [11] true false (S0 + 2) 0 []; EPwDeliver 1 S0 [11] (PwOk 0 0); EPwReply 1 S0 [11] (PwOk 0 0);
+    EPwSend 1 S0 10 [10] true false (S0 + 2) 0 [11]; EPwDeliver 1 S0 [10] (PwOk 0 0); ETold S0 TErr ] = None.
+Proof. vm_compute. reflexivity. Qed.
+(* ... but, as in 2PC, no primary commit request may be outstanding *)
+Example fallback_err_with_pending_commit_rejected : reject_of
+  [ ETso S0; EBegin 1 S0; ECommitCall S0 false; EMutations S0 10 [(10, OpPut); (11, OpPut)];
+    EPwSend 1 S0 10 [10; 11] true false (S0 + 2) 0 [11]; EPwDeliver 1 S0 [10; 11] (PwOk 0 0); EPwReply 1 S0 [10; 11] (PwOk 0 0);
+    ETso (S0 + 3); ECmSend 1 S0 (S0 + 3) [10]; ECmDeliver 1 S0 (S0 + 3) [10] CmOk; ETold S0 TErr ] = Some (10%nat, R7_err_with_pending).
+Proof. vm_compute. reflexivity. Qed.
+
